@@ -94,11 +94,13 @@ class SymMk(_Mk):
         c = self.sp.realize(v)
         return c
 
-    def track(self, name, n, maxlen=None):
-        """a per-letter annotation track of arbitrary integer values"""
+    def track(self, name, n, maxlen=None, lo=None, hi=None):
+        """a per-letter annotation track of arbitrary integer values (optionally lo..hi)"""
         from .core import SSeq
 
-        v = SSeq.fresh(self.sp, name, n, maxlen=maxlen, codes=None)
+        v = SSeq.fresh(self.sp, name, n, maxlen=maxlen,
+                       codes=list(range(lo, hi + 1)) if lo is not None and hi is not None else None)
+        v.hint = None
         v.kind = "track"
         self.values[name] = ("track", v)
         return v
@@ -153,8 +155,11 @@ class FixedMk(_Mk):
     def pick(self, name, k):
         return self.int(name, 0, k - 1)
 
-    def track(self, name, n, maxlen=None):
-        return list(self._get(name))
+    def track(self, name, n, maxlen=None, lo=None, hi=None):
+        v = list(self._get(name))
+        if lo is not None and any(x < lo or x > hi for x in v):
+            raise OutOfDomain("range of %s" % name)
+        return v
 
 
 class RandomMk(_Mk):
@@ -195,8 +200,8 @@ class RandomMk(_Mk):
     def pick(self, name, k):
         return self.int(name, 0, k - 1)
 
-    def track(self, name, n, maxlen=None):
-        v = [self.rng.randint(0, 99) for _ in range(n)]
+    def track(self, name, n, maxlen=None, lo=None, hi=None):
+        v = [self.rng.randint(0 if lo is None else lo, 99 if hi is None else hi) for _ in range(n)]
         self.values[name] = v
         return v
 
@@ -692,7 +697,7 @@ def finish(pid, tier, seed, hm, obs, results, wall, write=True):
         if r["unsupported"] and not bad:
             inconclusive.append("%s: unsupported operation on a path (%s)" % (r["name"], r["unsupported"][0].get("msg")))
             bad = True
-        if r.get("missing_witnesses"):
+        if r.get("missing_witnesses") and not bad:
             harness_errors.append("coverage witness never reached in %s: %s" % (r["name"], r["missing_witnesses"]))
         if r["asserted_paths"] == 0 and not bad:
             harness_errors.append("vacuous obligation (no path reaches its assertion): %s" % r["name"])
